@@ -215,7 +215,7 @@ impl Property for C16 {
     }
 
     fn cases(tier: Tier) -> u64 {
-        tier.pick(48_000, 900_000)
+        tier.pick(48_000, 3_000_000)
     }
 
     fn exhaustive_spaces(tier: Tier) -> Vec<String> {
